@@ -55,6 +55,10 @@ CLAIMS = {
          "_SELECT KEY / UNIQUE directives naming unknown columns through sql.NewTable and sqlcrud.generateTable. Sweeps: typescript, dart (incl. Generate), SQL validators, gounions, randdata on every analysis.Type skeleton "
          "of depth<=1 (quick) / 2 (thorough) over the nine node kinds. NOT decided: the full statement over all well-typed packages (createType on arbitrary go/types graphs, unbounded recursion, packages.Load).",
          "DESIGN.md section 4 (C18)", ""),
+ "C03": ("Bug hunting only for the headline (inhabitation of TypeScript types by JSON documents needs a TypeScript semantics, not encoded). Decided text clauses: for every type skeleton of depth<=2 the output is self-contained: every type name it mentions "
+         "(through exported non-opaque fields, elements, keys, members) is declared exactly once and declared names are identifiers; slices and maps accept null; a fixed array of length 1..4 is a tuple alias with exactly Len elements, declared under the name references use; "
+         "an enum lists every constant once with its value (symbolic names); two structs of two packages never share a declaration (one listed known finding: equal local names). Union alternatives are covered under C02.",
+         "DESIGN.md section 5 (C03)", ""),
  "C02": ("Bug hunting only for the headline (the round trip itself runs through encoding/json's reflection, which is not encoded). Decided wire-format text clauses: the shadow struct generated for a struct holding a union keeps every field under its name, "
          "with its type (the union replaced by <U>Wrapper) and its struct tag (symbolic names and json tags, with/without omitempty), and both methods copy every field; jsonForUnion uses the keys Kind/Data with one case per member and the Go member name as Kind; "
          "the TypeScript union type, the Dart union routines and the SQL validator use the same Go member names under Kind/Data (symbolic member names). Text is compared up to white space.",
